@@ -36,7 +36,7 @@ def roles(p):
     if len(mv) != 1:
         raise AnchorMissing("expected one function calling fs::rename, found %s" % [f.path for f in mv])
     r["move_file"] = mv[0]
-    loops = [f for f in fns if f.back_edges() and f.calls(mv[0].path)]
+    loops = [f for f in fns if f.back_edges() and any(f.in_loop(c.block) for c in f.calls(mv[0].path))]
     if len(loops) != 1:
         raise AnchorMissing("expected one looping function calling the move helper in Cone(FixedWindowRoller::roll), found %s" % [f.path for f in loops])
     r["rotate"] = p.fn_closure_calls(loops[0].path)     # a local closure naming the archive path is a local helper
@@ -345,6 +345,77 @@ def run(ctx):
         run_cfg(ctx, ctx.prog(cfg), cfg)
 
 
+def rule_roll_moves_file(ctx, p, cfg, rid="R11"):
+    """Roll::roll may report success only after the rolled file has left its path (renamed into staging / shifted into the
+    window / removed): a roll that returns Ok with the file still in place makes the caller reopen and keep growing it."""
+    with ctx.rule(rid, "a successful roll has taken the file away", cfg) as r:
+        ro = roles(p)
+        f = p.fn(ROLL_IMPL)
+        movers = {ro["move_file"].path, ro["rotate"].path, "std::fs::remove_file", "std::fs::rename"}
+        must = set()
+        for c in f.calls():
+            if c.callee in movers and any(any(x == ("param", 2) for x in walk(a)) for a in c.arg_exprs()):
+                must.add(c.block)
+        r.require(bool(must), "file-is-moved", fn=f, detail="calls that take the rolled file away: %d" % len(must))
+        rets = {b for b, e in q.ret_assignments(f) if q.classify_ret(e) != "err" and not q.is_from_residual(e)}
+        skipped = q.skipping_paths(f, 0, must, rets) | ({0} & rets)
+        r.require(not skipped, "ok-only-after-the-file-left", fn=f, detail="every non-error return passed a rename/move/remove of the rolled file",
+                  fail_detail="Roll::roll can return without an error (bb%s) although the file was neither moved nor removed: the caller takes the rotation for done" % sorted(skipped))
+
+
+def rule_staging_name(ctx, p, cfg, rid="R12"):
+    """background rotation renames the rolled file to a staging name first: that name must not exist yet, or a second
+    roll before the first rotation ran overwrites the first staged file"""
+    with ctx.rule(rid, "the staging name is fresh", cfg) as r:
+        f = p.fn(ROLL_IMPL)
+        ro = roles(p)
+        cands = [c for c in f.calls() if c.callee in p.fns and p.fns[c.callee].d.get("sig", "").replace(" ", "").endswith("->std::path::PathBuf") and not (p.fns[c.callee].vis or "").startswith("Public")]
+        if not cands:
+            r.ok("no-staging-step", fn=f, detail="this configuration rotates in place (no staging name)")
+            return
+        g = p.fn(cands[0].callee)
+        ex = [c for c in g.calls() if (c.callee or "").rsplit("::", 1)[-1] in ("exists", "try_exists")]
+        okx = False
+        for c in ex:
+            for rb in g.return_blocks():
+                for sb, si, al in g.conditions(rb):
+                    if any(x[0] == "call" and len(x) > 3 and x[3] == c.block for x in walk(si.discr)) and {si.label(v) for v, _ in al} == {False}:
+                        okx = True
+        r.require(okx, "staging-name-checked-absent", fn=g, detail="the name is returned only on the `does not exist` edge of an existence test",
+                  fail_detail="%s returns a name without testing that nothing exists there: two rolls within the clock's resolution share one staging file and the first is overwritten" % g.path)
+
+
+def rule_archive_writes_surface(ctx, p, cfg, rid="R13"):
+    """The source of a move/compress step is removed once the archive is written.  A buffering writer between the step and the
+    archive file (BufWriter/LineWriter) writes its tail when it is dropped and throws that error away, so a failed write
+    would still end in the removal: such a writer needs a checked flush()/into_inner() before it goes out of scope."""
+    with ctx.rule(rid, "archive write errors are not lost in a drop", cfg) as r:
+        n = 0
+        for path, f in sorted(p.fns.items()):
+            if "append::rolling_file::policy::compound::roll::" not in path or "Derive" in (f.d.get("exp") or ""):
+                continue
+            for c in f.calls():
+                cal = c.callee or ""
+                if not (cal.startswith("std::io::") and ("BufWriter::<W>::" in cal or "LineWriter::<W>::" in cal)) or cal.rsplit("::", 1)[-1] not in ("new", "with_capacity"):
+                    continue
+                n += 1
+                closers = [x for x in f.calls() if ((x.callee or "") == "std::io::Write::flush" or ((x.callee or "").startswith("std::io::") and (x.callee or "").endswith("Writer::<W>::into_inner")))
+                           and f.can_reach(c.block, x.block) and common.result_is_checked(f, x)]
+                rets = {b for b, e in q.ret_assignments(f) if q.classify_ret(e) != "err" and not q.is_from_residual(e)}
+                ok = bool(closers) and not q.skipping_paths(f, c.block, {x.block for x in closers}, rets)
+                r.require(ok, "buffered-archive-writer-flushed:%s/%s" % (path.rsplit("::", 1)[-1], common.role(c)), fn=f, site=c.at,
+                          detail="every non-error return after the construction passed a checked flush()/into_inner()",
+                          fail_detail="%s wraps an archive file in %s and lets it drop: the buffered tail is written in Drop, where a write error is discarded, and the step goes on to remove its source" % (
+                              path.rsplit("::", 1)[-1], cal.split("::<")[0].rsplit("::", 1)[-1]))
+        # and the bytes reach it through whole-buffer operations: a bare Write::write may take less than it was offered
+        partial = [(f, c) for path, f in sorted(p.fns.items()) if "append::rolling_file::policy::compound::roll::" in path and "Derive" not in (f.d.get("exp") or "")
+                   for c in f.calls("std::io::Write::write")]
+        r.require(not partial, "whole-buffer-writes-only", fn=(partial[0][0] if partial else None), site=(partial[0][1].at if partial else None),
+                  detail="archives are written with io::copy / write_all (bare Write::write sites: %d)" % len(partial),
+                  fail_detail="an archive is written with a bare Write::write: what the writer does not accept in that call is dropped from the archive")
+        r.ok("inventory", detail="buffering writers constructed in the roller modules: %d" % n)
+
+
 def rule_move_file(ctx, p, cfg, rid="R5"):
     with ctx.rule(rid, "move_file contract", cfg) as r:
         ro = roles(p)
@@ -419,8 +490,16 @@ def run_cfg(ctx, p, cfg):
 
     rule_range(ctx, p, cfg, "R2")
     rule_final_step(ctx, p, cfg, "R3")
+    rule_roll_moves_file(ctx, p, cfg, "R11")
+    rule_staging_name(ctx, p, cfg, "R12")
+    rule_archive_writes_surface(ctx, p, cfg, "R13")
 
-    with ctx.rule("R10", "archive directories are created", cfg) as r:
+    rule_directories(ctx, p, cfg, "R10")
+    run_cfg_after_r10(ctx, p, cfg)
+
+
+def rule_directories(ctx, p, cfg, rid="R10"):
+    with ctx.rule(rid, "archive directories are created", cfg) as r:
         ro = roles(p)
         rot = ro["rotate"]
         pr = rotate_params(p)
@@ -489,6 +568,10 @@ def run_cfg(ctx, p, cfg):
             r.require(okg, "created-whenever-the-directory-can-differ", fn=rot, site=c.at, detail=why,
                       fail_detail="the per-index create_dir_all is skipped under a condition that is not `parent(pattern(base)) != parent(pattern)`: %s — with the index in a directory component the archive directory is never created, the rename's NotFound is tolerated and archives are lost" % why)
 
+
+def run_cfg_after_r10(ctx, p, cfg):
+    feats = set(p.meta.get("features", []))
+    bg = "background_rotation" in feats
     with ctx.rule("R4", "count == 0", cfg) as r:
         ro = roles(p)
         f = p.fn(ROLL_IMPL)
